@@ -477,6 +477,8 @@ def _chunks(seq, size):
 
 # ================================================================================================ driver
 def run(ctx: Ctx):
+    from vf.prove import prove
+    prove(ctx, ["specs.lp_milp"], "C03")  # deductive part (specs/lp_milp.py)
     from vf.pool import pmap
     use_repo()
     rng = random.Random(ctx.seed)
